@@ -29,7 +29,7 @@ def run_property(pid, tier, seed):
         cfg_info.append({'config': cfg, 'bodies': len(ctx.prog.bodies), 'extract_s': round(dt, 2), 'cfg': facts['cfg']})
         rules = spec['rules'] if cfg in ('default', 'dev', 'release') else spec.get('rules_' + cfg, spec['rules'])
         for rule in rules:
-            if cfg != 'default' and getattr(rule, 'default_only', False):
+            if cfg != 'default' and (getattr(rule, 'default_only', False) or rule.__module__.endswith('rules_type')):
                 continue
             res = rule(ctx)
             res.config = cfg
